@@ -1,5 +1,7 @@
 import AFProofs.Lemmas.Msg
 import AFProofs.Lemmas.MsgReal
+import AFProofs.Lemmas.MsgGB
+import AFProofs.Lemmas.MsgGBReal
 
 /-!
 # C17 — messages form a consistent exponential-family algebra
@@ -563,5 +565,576 @@ changes the result (non-vacuity of "in the order of the stack"; `ℚ` with the s
 example : (varianceChain fnQ [Tr.exp, Tr.shift 0 3] (2, 1)).2 ≠
     (varianceChain fnQ [Tr.shift 0 3, Tr.exp] (2, 1)).2 := by
   decide +kernel
+
+end AF.C17
+
+/-! # growth: the Gamma and Beta families (`AFModel/MsgGB.lean`) -/
+
+namespace AF.C17
+open AF.Msg
+
+variable {K : Type} [Field K] [LinearOrder K] [IsStrictOrderedRing K]
+
+/-! ## Gamma and Beta: arithmetic on the ordinary parameters, with the exact validity guards -/
+
+/-- `GammaMessage`: product, quotient and power on the ordinary parameters (exact for every operand: the maps
+between ordinary and natural parameters are affine) -/
+theorem gamma_arith_parameters (fn : Fn K) (a b : M K) (k : K) (ha : a.base.fam = .gamma) (hb : b.base.fam = .gamma) :
+    ((M.mul fn a b).base.p1 = a.base.p1 + b.base.p1 - 1 ∧ (M.mul fn a b).base.p2 = a.base.p2 + b.base.p2) ∧
+    ((M.div fn a b).base.p1 = a.base.p1 - b.base.p1 + 1 ∧ (M.div fn a b).base.p2 = a.base.p2 - b.base.p2) ∧
+    ((M.pow fn a k).base.p1 = k * (a.base.p1 - 1) + 1 ∧ (M.pow fn a k).base.p2 = k * a.base.p2) := by
+  have hf : a.base.fam ≠ .fixed := by rw [ha]; decide
+  simp only [M.mul, M.div, M.pow, M.lift_base, Base.mul_eq fn _ _ hf, Base.div_eq fn _ _ _ hf, Base.pow_eq fn _ _ hf,
+    fromNatural, ha, invertNatural, M.natural, natural_gamma _ ha, natural_gamma _ hb]
+  refine ⟨⟨?_, ?_⟩, ⟨?_, ?_⟩, ⟨?_, ?_⟩⟩ <;> first | trivial | rfl | ring
+
+/-- `BetaMessage`: the same for both shape parameters -/
+theorem beta_arith_parameters (fn : Fn K) (a b : M K) (k : K) (ha : a.base.fam = .beta) (hb : b.base.fam = .beta) :
+    ((M.mul fn a b).base.p1 = a.base.p1 + b.base.p1 - 1 ∧ (M.mul fn a b).base.p2 = a.base.p2 + b.base.p2 - 1) ∧
+    ((M.div fn a b).base.p1 = a.base.p1 - b.base.p1 + 1 ∧ (M.div fn a b).base.p2 = a.base.p2 - b.base.p2 + 1) ∧
+    ((M.pow fn a k).base.p1 = k * (a.base.p1 - 1) + 1 ∧ (M.pow fn a k).base.p2 = k * (a.base.p2 - 1) + 1) := by
+  have hf : a.base.fam ≠ .fixed := by rw [ha]; decide
+  simp only [M.mul, M.div, M.pow, M.lift_base, Base.mul_eq fn _ _ hf, Base.div_eq fn _ _ _ hf, Base.pow_eq fn _ _ hf,
+    fromNatural, ha, invertNatural, M.natural, natural_beta _ ha, natural_beta _ hb]
+  refine ⟨⟨?_, ?_⟩, ⟨?_, ?_⟩, ⟨?_, ?_⟩⟩ <;> first | trivial | rfl | ring
+
+/-- the exact validity guards (`shape > 0`, `rate > 0`): when the result of an operation on Gamma messages is again a
+Gamma message -/
+theorem gamma_validity_guards (fn : Fn K) (a b : M K) (k : K) (ha : a.base.fam = .gamma) (hb : b.base.fam = .gamma) :
+    (0 < (M.mul fn a b).base.p1 ↔ 1 < a.base.p1 + b.base.p1) ∧
+    (0 < (M.mul fn a b).base.p2 ↔ 0 < a.base.p2 + b.base.p2) ∧
+    (0 < (M.div fn a b).base.p1 ↔ b.base.p1 < a.base.p1 + 1) ∧
+    (0 < (M.div fn a b).base.p2 ↔ b.base.p2 < a.base.p2) ∧
+    (0 < (M.pow fn a k).base.p1 ↔ k * (1 - a.base.p1) < 1) ∧
+    (0 < (M.pow fn a k).base.p2 ↔ 0 < k * a.base.p2) := by
+  obtain ⟨⟨h1, h2⟩, ⟨h3, h4⟩, ⟨h5, h6⟩⟩ := gamma_arith_parameters fn a b k ha hb
+  rw [h1, h2, h3, h4, h5, h6]
+  refine ⟨?_, Iff.rfl, ?_, ?_, ?_, Iff.rfl⟩ <;> constructor <;> intro h <;> linarith
+
+/-- … and on Beta messages -/
+theorem beta_validity_guards (fn : Fn K) (a b : M K) (k : K) (ha : a.base.fam = .beta) (hb : b.base.fam = .beta) :
+    (0 < (M.mul fn a b).base.p1 ↔ 1 < a.base.p1 + b.base.p1) ∧
+    (0 < (M.mul fn a b).base.p2 ↔ 1 < a.base.p2 + b.base.p2) ∧
+    (0 < (M.div fn a b).base.p1 ↔ b.base.p1 < a.base.p1 + 1) ∧
+    (0 < (M.div fn a b).base.p2 ↔ b.base.p2 < a.base.p2 + 1) ∧
+    (0 < (M.pow fn a k).base.p1 ↔ k * (1 - a.base.p1) < 1) ∧
+    (0 < (M.pow fn a k).base.p2 ↔ k * (1 - a.base.p2) < 1) := by
+  obtain ⟨⟨h1, h2⟩, ⟨h3, h4⟩, ⟨h5, h6⟩⟩ := beta_arith_parameters fn a b k ha hb
+  rw [h1, h2, h3, h4, h5, h6]
+  refine ⟨?_, ?_, ?_, ?_, ?_, ?_⟩ <;> constructor <;> intro h <;> linarith
+
+/-! ## the algebra acts on densities: products of messages are products of densities -/
+
+/-- the density of `a * b` is the product of the densities up to a constant factor that does not depend on the
+point (every family; `t(x)` of the two operands must agree - same class, or NormalMessage with NaturalNormal) -/
+theorem density_mul_proportional {fn : Fn K} (hs : SqrtLaw fn) (sp : Sp K) (a b : M K) (hf : a.base.fam ≠ .fixed)
+    (hfam : ∀ x, toCanonical fn sp b.base.fam x = toCanonical fn sp a.base.fam x)
+    (hd : InDomain a.base.fam (a.natural.1 + b.natural.1, a.natural.2 + b.natural.2)) :
+    ∃ c : K, ∀ x : K,
+      (M.mul fn a b).base.logpdfRaw fn sp x = a.base.logpdfRaw fn sp x + b.base.logpdfRaw fn sp x + c := by
+  have hnat := mul_natural hs a b hf hd
+  have hfam' : (M.mul fn a b).base.fam = a.base.fam := congrArg (·.1) (arith_keeps_identity fn a b 0 0).1.1
+  refine ⟨logPartitionGB fn sp a.base.fam a.natural + logPartitionGB fn sp b.base.fam b.natural
+      - logPartitionGB fn sp a.base.fam (a.natural.1 + b.natural.1, a.natural.2 + b.natural.2) - logBase fn b.base.fam, ?_⟩
+  intro x
+  have hn' : (M.mul fn a b).base.natural = (a.natural.1 + b.natural.1, a.natural.2 + b.natural.2) := hnat
+  rw [logpdfRaw_eq, logpdfRaw_eq, logpdfRaw_eq, hfam', hn', hfam x]
+  simp only [M.natural]
+  ring
+
+/-- the density of `a ** k` is the `k`-th power of the density up to a constant factor -/
+theorem density_pow_proportional {fn : Fn K} (hs : SqrtLaw fn) (sp : Sp K) (a : M K) (k : K) (hf : a.base.fam ≠ .fixed)
+    (hd : InDomain a.base.fam (k * a.natural.1, k * a.natural.2)) :
+    ∃ c : K, ∀ x : K, (M.pow fn a k).base.logpdfRaw fn sp x = k * a.base.logpdfRaw fn sp x + c := by
+  have hnat := pow_natural hs a k hf hd
+  have hfam' : (M.pow fn a k).base.fam = a.base.fam := congrArg (·.1) (arith_keeps_identity fn a a k 0).2.2.1.1
+  refine ⟨k * logPartitionGB fn sp a.base.fam a.natural
+      - logPartitionGB fn sp a.base.fam (k * a.natural.1, k * a.natural.2) + (1 - k) * logBase fn a.base.fam, ?_⟩
+  intro x
+  have hn' : (M.pow fn a k).base.natural = (k * a.natural.1, k * a.natural.2) := hnat
+  rw [logpdfRaw_eq, logpdfRaw_eq, hfam', hn']
+  simp only [M.natural]
+  ring
+
+/-- the every-family density is the one of the normal theorems on the normal family -/
+theorem logpdfX_normal (fn : Fn K) (sp : Sp K) (a : Base K) (h : a.fam = .normal ∨ a.fam = .naturalNormal) (x : K)
+    (hnn : sp.nanToNum (a.logpdf fn x) = a.logpdf fn x) : a.logpdfX fn sp x = a.logpdf fn x := by
+  simp only [Base.logpdfX, logpdfRaw_normal fn sp a h x, hnn]
+
+/-- `mean` with `NaturalNormal`'s `np.nan_to_num` is the mean of the theorems wherever `nan_to_num` is the identity
+(every finite value), for plain and transformed messages -/
+theorem meanX_eq_mean (fn : Fn K) (sp : Sp K) (m : M K) (h : sp.nanToNum0 m.base.mean = m.base.mean) :
+    m.meanX fn sp = m.mean fn := by
+  simp only [M.meanX, M.mean, Base.meanX]
+  split <;> simp [h]
+
+/-! ## the numerical inversions: what they solve -/
+
+/-- `invpsilog`: a Newton step leaves `x` where it is exactly when `x` solves `ψ(x) − log x = c`; a solution is kept by
+any number of further steps -/
+theorem invpsilog_fixed_point (fn : Fn K) (sp : Sp K) (c x : K) (hg : gradPsilog sp x ≠ 0) :
+    (psilogStep fn sp c x = x ↔ psilog fn sp x = c) ∧
+    (psilog fn sp x = c → ∀ n, newtonPsilog fn sp c n x = x) :=
+  ⟨psilogStep_eq_self_iff fn sp c x hg, fun h n => newtonPsilog_of_solution fn sp c x h n⟩
+
+/-- `inv_beta_suffstats`: a Newton step leaves `(a, b)` where it is exactly when both moment equations hold
+(non-singular Jacobian); a solution is kept by any number of further steps -/
+theorem inv_beta_fixed_point (sp : Sp K) (l1 l2 : K) (ab : K × K) (hd : betaDet sp ab ≠ 0) :
+    (betaStep sp l1 l2 ab = ab ↔ betaResidual sp l1 l2 ab = (0, 0)) ∧
+    (betaResidual sp l1 l2 ab = (0, 0) → ∀ n, betaNewton sp l1 l2 n ab = ab) :=
+  ⟨betaStep_eq_self_iff sp l1 l2 ab hd, fun h n => betaNewton_of_solution sp l1 l2 ab h n⟩
+
+/-- moment matching for every family: when the inversion has converged, the member returned by
+`from_sufficient_statistics(m1, m2)` has expected sufficient statistics `E[t(x)] = (m1, m2)` -/
+theorem fromSuffX_moment_matching {fn : Fn K} (hs : SqrtLaw fn) (sp : Sp K) (fam : Family) (m1 m2 ln : K) (id : Nat)
+    (hc : Converged fn sp fam m1 m2) :
+    (fromSuffX fn sp fam m1 m2 ln id).expectedStats fn sp = (m1, m2) := by
+  cases fam with
+  | normal =>
+    have h := fromSuff_moments hs .normal (Or.inl rfl) m1 m2 ln id hc
+    have e : fromSuffX fn sp .normal m1 m2 ln id = fromSuff fn .normal m1 m2 ln id := rfl
+    have hfam : (fromSuff fn .normal m1 m2 ln id).fam = .normal := rfl
+    rw [e]; simp only [Base.expectedStats, hfam]; exact Prod.ext h.1 h.2
+  | naturalNormal =>
+    have h := fromSuff_moments hs .naturalNormal (Or.inr rfl) m1 m2 ln id hc
+    have e : fromSuffX fn sp .naturalNormal m1 m2 ln id = fromSuff fn .naturalNormal m1 m2 ln id := rfl
+    have hfam : (fromSuff fn .naturalNormal m1 m2 ln id).fam = .naturalNormal := rfl
+    rw [e]; simp only [Base.expectedStats, hfam]; exact Prod.ext h.1 h.2
+  | gamma =>
+    obtain ⟨h1, h2, h3, h4⟩ := hc
+    simp only [fromSuffX, invertSuffX, invertSuffGamma, fromNatural, invertNatural, calcNatural, Base.expectedStats]
+    simp only [psilog] at h1
+    ext
+    · simp only [sub_add_cancel, neg_neg, h4]; linarith
+    · simp only [sub_add_cancel, neg_neg]; field_simp
+  | beta =>
+    simp only [Converged, betaResidual, Prod.mk.injEq] at hc
+    obtain ⟨h1, h2⟩ := hc
+    simp only [fromSuffX, invertSuffX, invertSuffBeta, fromNatural, invertNatural, calcNatural, Base.expectedStats,
+      sub_add_cancel]
+    ext
+    · simp only; linarith
+    · simp only; linarith
+  | fixed => exact False.elim hc
+
+/-- the statistics `project` hands on are the weighted means of the sufficient statistics of the samples -/
+theorem weightedStatsT_eq (ts : List (K × K)) (ws : List K) (hlen : ts.length = ws.length) (hn : ts ≠ [])
+    (hw : sumL ws ≠ 0) :
+    weightedStatsT ts ws =
+      (sumL (List.zipWith (fun t w => t.1 * w) ts ws) / sumL ws,
+       sumL (List.zipWith (fun t w => t.2 * w) ts ws) / sumL ws) := by
+  have hl : (ts.length : K) ≠ 0 := by
+    have : ts.length ≠ 0 := by simpa using hn
+    exact_mod_cast this
+  have hl' : (ws.length : K) ≠ 0 := by rw [← hlen]; exact hl
+  simp only [weightedStatsT, meanL]
+  have h1 := sumL_zipWith_div_gen (fun t : K × K => t.1) ts ws (sumL ws / (ws.length : K))
+  have h2 := sumL_zipWith_div_gen (fun t : K × K => t.2) ts ws (sumL ws / (ws.length : K))
+  rw [h1, h2]
+  have len1 : (List.zipWith (fun (t : K × K) w => t.1 * w) ts (List.map (fun x => x / (sumL ws / (ws.length : K))) ws)).length
+      = ws.length := by simp [hlen]
+  have len2 : (List.zipWith (fun (t : K × K) w => t.2 * w) ts (List.map (fun x => x / (sumL ws / (ws.length : K))) ws)).length
+      = ws.length := by simp [hlen]
+  rw [len1, len2]
+  ext <;> simp only <;> field_simp
+
+/-- projection, every family: the member returned by `project` has expected sufficient statistics equal to the
+weighted sample means of `t(x)` (any number of samples, any weights with non-zero sum), when the inversion of
+those statistics has converged -/
+theorem projectX_moment_matching {fn : Fn K} (hs : SqrtLaw fn) (sp : Sp K) (fam : Family) (xs ws : List K) (ln : K)
+    (id : Nat) (hlen : xs.length = ws.length) (hn : xs ≠ []) (hw : sumL ws ≠ 0)
+    (hc : Converged fn sp fam
+      (sumL (List.zipWith (fun t w => t.1 * w) (xs.map (toCanonical fn sp fam)) ws) / sumL ws)
+      (sumL (List.zipWith (fun t w => t.2 * w) (xs.map (toCanonical fn sp fam)) ws) / sumL ws)) :
+    (projectWX fn sp fam xs ws ln id).expectedStats fn sp =
+      (sumL (List.zipWith (fun t w => t.1 * w) (xs.map (toCanonical fn sp fam)) ws) / sumL ws,
+       sumL (List.zipWith (fun t w => t.2 * w) (xs.map (toCanonical fn sp fam)) ws) / sumL ws) := by
+  have hts : (xs.map (toCanonical fn sp fam)) ≠ [] := by simpa using hn
+  simp only [projectWX, weightedStatsT_eq _ ws (by simpa using hlen) hts hw]
+  exact fromSuffX_moment_matching hs sp fam _ _ ln id hc
+
+/-- `GammaMessage.from_mode(m, V)` (as the code computes it) has mean `m` -/
+theorem fromMode_gamma_mean (fn : Fn K) (sp : Sp K) (m v ln : K) (id : Nat) (lo hi : K)
+    (hα : 1 + m * m * v ≠ 0) : (fromMode fn sp .gamma m v ln id lo hi).mean = m := by
+  show (1 + m * m * v) / ((1 + m * m * v) / m) = m
+  rw [div_div_eq_mul_div, mul_comm, mul_div_assoc, div_self hα, mul_one]
+
+/-! non-vacuity -/
+
+/-- the convergence hypothesis can be met: Gamma (`ψ(x) = 2x`, `log = id` over `ℚ`: Newton is exact) … -/
+example : Converged fnQ0 spQ .gamma 6 2 := by
+  simp only [Converged, invpsilog, newtonPsilog, psilogStep, psilog, gradPsilog, invpsilogStart, fnQ0, spQ]
+  norm_num
+
+/-- … and Beta (`ψ = id`: the equations are linear, one Newton step solves them) -/
+example : Converged fnQ0 spQ2 .beta (-3) (-2) := by
+  simp only [Converged, invBetaSuffstats, betaNewton, betaStep, betaResidual, betaJac, betaStart, fnQ0, spQ2, spQ]
+  norm_num
+
+/-- two valid Gamma messages whose product is valid: `Gamma(2, 1) * Gamma(1/2, 3)` has shape `3/2 > 0` -/
+example : (1 : ℚ) < 2 + 1 / 2 := by norm_num
+
+end AF.C17
+
+namespace AF.C17
+open AF.Msg
+open Real ProbabilityTheory MeasureTheory Set
+
+/-! ## the densities Gamma and Beta messages report (real numbers, Mathlib's Gamma function) -/
+
+/-- `exp(logpdf x)` of `GammaMessage(α, β)`, `α, β > 0`, at `x > 0` is Mathlib's Gamma density (shape `α`, rate `β`) -/
+theorem gamma_density_is_gammaPDF (sp0 : Fn ℝ) (sp : Sp ℝ) (a : Base ℝ) (hg : a.fam = .gamma) (hα : 0 < a.p1)
+    (hβ : 0 < a.p2) (x : ℝ) (hx : 0 < x) :
+    Real.exp (a.logpdfX (realFn sp0) (realSp sp) x) = gammaPDFReal a.p1 a.p2 x :=
+  exp_logpdf_gamma sp0 sp a hg hα hβ x hx
+
+/-- the three integrals `∫₀^∞ p(x) x^j dx`, `j = 0, 1, 2`, in one: for `s > -α`,
+`∫₀^∞ p(x) x^s dx = Γ(α + s) / (Γ(α) β^s)` -/
+theorem gamma_density_moment (sp0 : Fn ℝ) (sp : Sp ℝ) (a : Base ℝ) (hg : a.fam = .gamma) (hα : 0 < a.p1)
+    (hβ : 0 < a.p2) (s : ℝ) (hs : 0 < a.p1 + s) :
+    ∫ x in Ioi 0, Real.exp (a.logpdfX (realFn sp0) (realSp sp) x) * x ^ s =
+      Real.Gamma (a.p1 + s) / (Real.Gamma a.p1 * a.p2 ^ s) := by
+  have hΓ : 0 < Real.Gamma a.p1 := Real.Gamma_pos_of_pos hα
+  have hcongr : ∀ x ∈ Ioi (0 : ℝ), Real.exp (a.logpdfX (realFn sp0) (realSp sp) x) * x ^ s =
+      a.p2 ^ a.p1 / Real.Gamma a.p1 * (x ^ (a.p1 + s - 1) * Real.exp (-(a.p2 * x))) := by
+    intro x hx
+    have hx' : 0 < x := hx
+    rw [exp_logpdf_gamma_formula sp0 sp a hg hα hβ x hx']
+    have : x ^ (a.p1 + s - 1) = x ^ (a.p1 - 1) * x ^ s := by
+      rw [← Real.rpow_add hx']; congr 1; ring
+    rw [this]; ring
+  rw [setIntegral_congr_fun measurableSet_Ioi hcongr, integral_const_mul,
+    Real.integral_rpow_mul_exp_neg_mul_Ioi hs hβ]
+  have hb : a.p2 ^ a.p1 ≠ 0 := (Real.rpow_pos_of_pos hβ _).ne'
+  have hb' : a.p2 ^ s ≠ 0 := (Real.rpow_pos_of_pos hβ _).ne'
+  rw [Real.div_rpow zero_le_one hβ.le, Real.one_rpow, Real.rpow_add hβ]
+  field_simp
+
+/-- the density of a Gamma message is normalised over its support `(0, ∞)` -/
+theorem gamma_density_normalised (sp0 : Fn ℝ) (sp : Sp ℝ) (a : Base ℝ) (hg : a.fam = .gamma) (hα : 0 < a.p1)
+    (hβ : 0 < a.p2) : ∫ x in Ioi 0, Real.exp (a.logpdfX (realFn sp0) (realSp sp) x) = 1 := by
+  have h := gamma_density_moment sp0 sp a hg hα hβ 0 (by linarith)
+  simp only [Real.rpow_zero, mul_one, add_zero] at h
+  rw [h]; exact div_self (Real.Gamma_pos_of_pos hα).ne'
+
+/-- its mean is the `mean` the message reports, `α / β` -/
+theorem gamma_density_mean (sp0 : Fn ℝ) (sp : Sp ℝ) (a : Base ℝ) (hg : a.fam = .gamma) (hα : 0 < a.p1)
+    (hβ : 0 < a.p2) : ∫ x in Ioi 0, Real.exp (a.logpdfX (realFn sp0) (realSp sp) x) * x = a.mean := by
+  have h := gamma_density_moment sp0 sp a hg hα hβ 1 (by linarith)
+  simp only [Real.rpow_one] at h
+  rw [h, Real.Gamma_add_one hα.ne']
+  have hΓ := (Real.Gamma_pos_of_pos hα).ne'
+  simp only [Base.mean, hg]
+  field_simp
+
+/-- its second moment is `mean² + variance` with the `variance` the message reports, `α / β²` -/
+theorem gamma_density_second_moment (sp0 : Fn ℝ) (sp : Sp ℝ) (a : Base ℝ) (hg : a.fam = .gamma) (hα : 0 < a.p1)
+    (hβ : 0 < a.p2) :
+    ∫ x in Ioi 0, Real.exp (a.logpdfX (realFn sp0) (realSp sp) x) * x ^ (2 : ℝ) =
+      a.mean * a.mean + a.variance (realFn sp0) := by
+  have h := gamma_density_moment sp0 sp a hg hα hβ 2 (by linarith)
+  rw [h, show a.p1 + 2 = (a.p1 + 1) + 1 by ring, Real.Gamma_add_one (by linarith : a.p1 + 1 ≠ 0),
+    Real.Gamma_add_one hα.ne']
+  have hΓ := (Real.Gamma_pos_of_pos hα).ne'
+  have hb := hβ.ne'
+  simp only [Base.mean, Base.variance, hg]
+  rw [show (2 : ℝ) = ((2 : ℕ) : ℝ) by norm_num, Real.rpow_natCast]
+  field_simp
+
+/-- `exp(logpdf x)` of `BetaMessage(α, β)`, `α, β > 0`, at `0 < x < 1` is Mathlib's Beta density -/
+theorem beta_density_is_betaPDF (sp0 : Fn ℝ) (sp : Sp ℝ) (a : Base ℝ) (hb : a.fam = .beta) (hα : 0 < a.p1)
+    (hβ : 0 < a.p2) (x : ℝ) (hx0 : 0 < x) (hx1 : x < 1) :
+    Real.exp (a.logpdfX (realFn sp0) (realSp sp) x) = betaPDFReal a.p1 a.p2 x :=
+  exp_logpdf_beta sp0 sp a hb hα hβ x hx0 hx1
+
+/-- … hence normalised over its support `(0, 1)` -/
+theorem beta_density_normalised (sp0 : Fn ℝ) (sp : Sp ℝ) (a : Base ℝ) (hb : a.fam = .beta) (hα : 0 < a.p1)
+    (hβ : 0 < a.p2) :
+    ∫⁻ x in Ioo 0 1, ENNReal.ofReal (Real.exp (a.logpdfX (realFn sp0) (realSp sp) x)) = 1 := by
+  have h1 := lintegral_betaPDF_eq_one hα hβ
+  rw [lintegral_betaPDF] at h1
+  rw [← h1]
+  refine setLIntegral_congr_fun measurableSet_Ioo (fun x hx => ?_)
+  rw [exp_logpdf_beta sp0 sp a hb hα hβ x hx.1 hx.2, betaPDFReal, if_pos ⟨hx.1, hx.2⟩]
+
+end AF.C17
+
+namespace AF.C17
+open AF.Msg
+
+/-! ## growth: stacking transforms - CDF, density and quantiles of a transformed message built on a transformed message -/
+
+section stacking
+variable {F : Type} [Field F]
+
+/-- `_transform` of a stack `trs ++ ts` applies `ts` first (the outer transforms), then `trs` (any depths) -/
+theorem transformChain_append (fn : Fn F) (trs ts : List (Tr F)) (x : F) :
+    transformChain fn (trs ++ ts) x = transformChain fn trs (transformChain fn ts x) := by
+  simp [transformChain, List.foldr_append]
+
+/-- `_inverse_transform` of a stack `trs ++ ts` undoes `trs` first, then `ts` -/
+theorem inverseChain_append (fn : Fn F) (trs ts : List (Tr F)) (x : F) :
+    inverseChain fn (trs ++ ts) x = inverseChain fn ts (inverseChain fn trs x) := by
+  simp [inverseChain, List.foldl_append]
+
+/-- the log-determinants of stacked transforms add, each taken at its own input (induction over the inner stack) -/
+theorem transformDet_append (fn : Fn F) (trs ts : List (Tr F)) (x : F) :
+    transformDet fn (trs ++ ts) x =
+      ((transformDet fn trs (transformChain fn ts x)).1,
+       (transformDet fn ts x).2 + (transformDet fn trs (transformChain fn ts x)).2) := by
+  induction trs with
+  | nil =>
+    show transformDet fn ts x = _
+    ext
+    · simp [transformDet, transformDet_fst]
+    · simp [transformDet]
+  | cons t rest ih =>
+    simp only [List.cons_append, transformDet, ih]
+    ext
+    · rfl
+    · simp only; ring
+
+/-- change of variables through a wrapped message (`TransformedMessage(m, *ts)`, `m` itself transformed to any depth):
+its CDF is `m`'s CDF at the transformed point, its density (`factor`) is `m`'s density at the transformed point plus
+the log-determinant of the new transforms, `logpdf` omits that term, and its quantile function and mean are `m`'s
+mapped back through the new transforms -/
+theorem wrap_change_of_variables (fn : Fn F) (m : M F) (ts : List (Tr F)) (id : Option Nat) (lo hi x u : F) :
+    (m.wrap ts id lo hi).cdf fn x = m.cdf fn (transformChain fn ts x) ∧
+    (m.wrap ts id lo hi).factor fn x = m.factor fn (transformChain fn ts x) + (transformDet fn ts x).2 ∧
+    (m.wrap ts id lo hi).logpdf fn x = m.logpdf fn (transformChain fn ts x) ∧
+    (m.wrap ts id lo hi).valueFor fn u = inverseChain fn ts (m.valueFor fn u) ∧
+    (m.wrap ts id lo hi).mean fn = inverseChain fn ts (m.mean fn) ∧
+    (m.wrap ts id lo hi).natural = m.natural := by
+  refine ⟨?_, ?_, ?_, ?_, ?_, rfl⟩
+  · simp only [M.cdf, M.wrap, M.trs, M.base, transformChain_append]
+  · simp only [M.factor, M.wrap, M.trs, M.base, transformDet_append]; ring
+  · simp only [M.logpdf, M.wrap, M.trs, M.base, transformChain_append]
+  · simp only [M.valueFor, M.wrap, M.trs, M.base, inverseChain_append]
+  · simp only [M.mean, M.wrap, M.trs, M.base, inverseChain_append]
+
+end stacking
+
+/-- density ↔ CDF for transformed messages of any stack depth: where the base message's CDF has the base density as
+its derivative, the CDF of the transformed message has the density the transformed message reports (`exp(factor)`)
+as its derivative (chain rule through the whole stack) -/
+theorem transformed_cdf_deriv_is_density (fn : Fn ℝ) (m : M ℝ) (x : ℝ) (h : DerivOK fn m.trs x)
+    (hbase : HasDerivAt (m.base.cdf fn) (Real.exp (m.base.logpdf fn (transformChain fn m.trs x)))
+      (transformChain fn m.trs x)) :
+    HasDerivAt (m.cdf fn) (Real.exp (m.factor fn x)) x := by
+  have hT := transformDet_is_log_deriv fn m.trs x h
+  have hcomp := HasDerivAt.comp x hbase hT
+  have hf : m.cdf fn = (m.base.cdf fn) ∘ (transformChain fn m.trs) := by funext y; rfl
+  have hd : Real.exp (m.factor fn x) =
+      Real.exp (m.base.logpdf fn (transformChain fn m.trs x)) * Real.exp (transformDet fn m.trs x).2 := by
+    simp only [M.factor, transformDet_fst, Real.exp_add]
+  rw [hf, hd]; exact hcomp
+
+/-- non-vacuity: the stack of a `UniformPrior(2, 5)` message on top of a log transform is differentiable wherever
+the inner point is positive -/
+example (sp : Fn ℝ) (x : ℝ) (hx : 0 < (x - 2) / 3) : DerivOK (realFn sp) [.log, .shift 2 3] x := by
+  refine ⟨⟨trivial, (logDet_is_log_deriv sp _).1 2 3 (by norm_num)⟩, ?_⟩
+  exact (logDet_is_log_deriv sp _).2.1 hx
+
+end AF.C17
+
+/-! # growth: density ↔ CDF for the normal family and its transformed variants -/
+
+namespace AF.C17
+open AF.Msg
+open Real ProbabilityTheory MeasureTheory Set
+
+/-- density ↔ CDF for a `NormalMessage`: if the function the code takes from scipy as `ndtr` has the standard normal
+density as its derivative (the one law of Φ used), then `cdf` has the density the message reports, `exp(logpdf)`,
+as its derivative everywhere -/
+theorem normal_cdf_deriv_is_density (sp : Fn ℝ) (a : Base ℝ) (hn : a.fam = .normal) (hσ : 0 < a.p2)
+    (hΦ : ∀ z : ℝ, HasDerivAt sp.ndtr (Real.exp (-(z ^ 2) / 2) / Real.sqrt (2 * π)) z) (x : ℝ) :
+    HasDerivAt (a.cdf (realFn sp)) (Real.exp (a.logpdf (realFn sp) x)) x := by
+  have hs : a.p2 ≠ 0 := hσ.ne'
+  have hf : a.cdf (realFn sp) = sp.ndtr ∘ (fun y : ℝ => (y - a.p1) / a.p2) := by
+    funext y; simp [Base.cdf, Base.mean, Base.sigma, hn, realFn]
+  have hin : HasDerivAt (fun y : ℝ => (y - a.p1) / a.p2) (1 / a.p2) x :=
+    ((hasDerivAt_id x).sub_const a.p1).div_const a.p2
+  have hcomp := HasDerivAt.comp x (hΦ ((x - a.p1) / a.p2)) hin
+  have hsqrt : √(2 * π * a.p2 ^ 2) = √(2 * π) * a.p2 := by
+    rw [Real.sqrt_mul (by positivity), Real.sqrt_sq hσ.le]
+  have h2pi : √(2 * π) ≠ 0 := by positivity
+  have e : -(x - a.p1) ^ 2 / (2 * a.p2 ^ 2) = -(((x - a.p1) / a.p2) ^ 2) / 2 := by field_simp
+  have hval : gaussianPDFReal a.p1 (varNN a.p2) x =
+      Real.exp (-(((x - a.p1) / a.p2) ^ 2) / 2) / √(2 * π) * (1 / a.p2) := by
+    simp only [gaussianPDFReal, coe_varNN]
+    rw [hsqrt, e]
+    field_simp
+  rw [hf, exp_logpdf_normal sp a hn hσ x, hval]
+  exact hcomp
+
+/-- … and therefore for every transformed variant of it (uniform, log, log10, shifted, any stack): the CDF of the
+transformed message has the density it reports (`exp(factor)`) as its derivative -/
+theorem transformed_normal_cdf_deriv_is_density (sp : Fn ℝ) (m : M ℝ) (hn : m.base.fam = .normal) (hσ : 0 < m.base.p2)
+    (hΦ : ∀ z : ℝ, HasDerivAt sp.ndtr (Real.exp (-(z ^ 2) / 2) / Real.sqrt (2 * π)) z) (x : ℝ)
+    (h : DerivOK (realFn sp) m.trs x) :
+    HasDerivAt (m.cdf (realFn sp)) (Real.exp (m.factor (realFn sp) x)) x :=
+  transformed_cdf_deriv_is_density (realFn sp) m x h (normal_cdf_deriv_is_density sp m.base hn hσ hΦ _)
+
+/-- non-vacuity of the law of Φ: a function with the standard normal density as derivative exists -/
+example : ∃ Φ : ℝ → ℝ, ∀ z : ℝ, HasDerivAt Φ (Real.exp (-(z ^ 2) / 2) / Real.sqrt (2 * π)) z :=
+  ⟨fun z => ∫ t in (0 : ℝ)..z, Real.exp (-(t ^ 2) / 2) / Real.sqrt (2 * π),
+   fun z => (Continuous.integral_hasStrictDerivAt (by fun_prop) 0 z).hasDerivAt⟩
+
+end AF.C17
+
+/-! # growth: moments of the Beta density -/
+
+namespace AF.C17
+open AF.Msg
+open Real ProbabilityTheory MeasureTheory Set
+
+/-- the moments of the Beta density: for `s > -α`, `∫₀¹ p(x) x^s dx = B(α + s, β) / B(α, β)` -/
+theorem beta_density_moment (sp0 : Fn ℝ) (sp : Sp ℝ) (a : Base ℝ) (hb : a.fam = .beta) (hα : 0 < a.p1)
+    (hβ : 0 < a.p2) (s : ℝ) (hs : 0 < a.p1 + s) :
+    ∫⁻ x in Ioo 0 1, ENNReal.ofReal (Real.exp (a.logpdfX (realFn sp0) (realSp sp) x) * x ^ s) =
+      ENNReal.ofReal (ProbabilityTheory.beta (a.p1 + s) a.p2 / ProbabilityTheory.beta a.p1 a.p2) := by
+  have hB : 0 < ProbabilityTheory.beta a.p1 a.p2 := beta_pos hα hβ
+  have hB' : 0 < ProbabilityTheory.beta (a.p1 + s) a.p2 := beta_pos hs hβ
+  have h1 := lintegral_betaPDF_eq_one hs hβ
+  rw [lintegral_betaPDF] at h1
+  have hcongr : ∀ x ∈ Ioo (0 : ℝ) 1,
+      ENNReal.ofReal (Real.exp (a.logpdfX (realFn sp0) (realSp sp) x) * x ^ s) =
+        ENNReal.ofReal (ProbabilityTheory.beta (a.p1 + s) a.p2 / ProbabilityTheory.beta a.p1 a.p2) *
+          ENNReal.ofReal (1 / ProbabilityTheory.beta (a.p1 + s) a.p2 * x ^ (a.p1 + s - 1) * (1 - x) ^ (a.p2 - 1)) := by
+    intro x hx
+    rw [← ENNReal.ofReal_mul (by positivity), exp_logpdf_beta sp0 sp a hb hα hβ x hx.1 hx.2, betaPDFReal,
+      if_pos ⟨hx.1, hx.2⟩]
+    congr 1
+    have : x ^ (a.p1 + s - 1) = x ^ (a.p1 - 1) * x ^ s := by
+      rw [← Real.rpow_add hx.1]; congr 1; ring
+    rw [this]
+    field_simp
+  rw [setLIntegral_congr_fun measurableSet_Ioo hcongr, lintegral_const_mul' _ _ ENNReal.ofReal_ne_top, h1, mul_one]
+
+/-- the mean of the Beta density is the `mean` the message reports, `α / (α + β)` -/
+theorem beta_density_mean (sp0 : Fn ℝ) (sp : Sp ℝ) (a : Base ℝ) (hb : a.fam = .beta) (hα : 0 < a.p1) (hβ : 0 < a.p2) :
+    ∫⁻ x in Ioo 0 1, ENNReal.ofReal (Real.exp (a.logpdfX (realFn sp0) (realSp sp) x) * x) = ENNReal.ofReal a.mean := by
+  have h := beta_density_moment sp0 sp a hb hα hβ 1 (by linarith)
+  simp only [Real.rpow_one] at h
+  rw [h]; congr 1
+  have h1 := (Real.Gamma_pos_of_pos hα).ne'
+  have h2 := (Real.Gamma_pos_of_pos hβ).ne'
+  have h3 := (Real.Gamma_pos_of_pos (add_pos hα hβ)).ne'
+  have hab : a.p1 + a.p2 ≠ 0 := (add_pos hα hβ).ne'
+  simp only [ProbabilityTheory.beta, Base.mean, hb]
+  rw [show a.p1 + 1 + a.p2 = (a.p1 + a.p2) + 1 by ring, Real.Gamma_add_one hα.ne', Real.Gamma_add_one hab]
+  field_simp
+
+/-- its second moment is `mean² + variance` with the `variance` the message reports -/
+theorem beta_density_second_moment (sp0 : Fn ℝ) (sp : Sp ℝ) (a : Base ℝ) (hb : a.fam = .beta) (hα : 0 < a.p1)
+    (hβ : 0 < a.p2) :
+    ∫⁻ x in Ioo 0 1, ENNReal.ofReal (Real.exp (a.logpdfX (realFn sp0) (realSp sp) x) * x ^ (2 : ℝ)) =
+      ENNReal.ofReal (a.mean * a.mean + a.variance (realFn sp0)) := by
+  have h := beta_density_moment sp0 sp a hb hα hβ 2 (by linarith)
+  rw [h]; congr 1
+  have h1 := (Real.Gamma_pos_of_pos hα).ne'
+  have h2 := (Real.Gamma_pos_of_pos hβ).ne'
+  have h3 := (Real.Gamma_pos_of_pos (add_pos hα hβ)).ne'
+  have hab : a.p1 + a.p2 ≠ 0 := (add_pos hα hβ).ne'
+  have hab1 : a.p1 + a.p2 + 1 ≠ 0 := by positivity
+  simp only [ProbabilityTheory.beta, Base.mean, Base.variance, hb]
+  rw [show a.p1 + 2 + a.p2 = ((a.p1 + a.p2) + 1) + 1 by ring, show a.p1 + 2 = (a.p1 + 1) + 1 by ring,
+    Real.Gamma_add_one (by linarith : a.p1 + 1 ≠ 0), Real.Gamma_add_one hα.ne', Real.Gamma_add_one hab1,
+    Real.Gamma_add_one hab]
+  field_simp
+  ring
+
+end AF.C17
+
+namespace AF.C17
+open AF.Msg
+
+/-- the convergence hypothesis of the moment-matching theorems in terms of the residual the driver evaluates on every
+generated case: `Converged` holds exactly when `suffResidual` vanishes (Beta), resp. when it vanishes and the
+logarithm is a homomorphism at the one quotient formed (Gamma) -/
+theorem converged_iff_residual_zero {K : Type} [Field K] [LinearOrder K] (fn : Fn K) (sp : Sp K) (m1 m2 : K) :
+    (Converged fn sp .beta m1 m2 ↔ suffResidual fn sp .beta m1 m2 = (0, 0)) ∧
+    (Converged fn sp .gamma m1 m2 ↔
+      (suffResidual fn sp .gamma m1 m2 = (0, 0) ∧ invpsilog fn sp (m1 - fn.log m2) ≠ 0 ∧ m2 ≠ 0 ∧
+        fn.log (invpsilog fn sp (m1 - fn.log m2) / m2) = fn.log (invpsilog fn sp (m1 - fn.log m2)) - fn.log m2)) := by
+  refine ⟨Iff.rfl, ?_⟩
+  simp only [Converged, suffResidual, Prod.mk.injEq, and_true, sub_eq_zero]
+
+end AF.C17
+
+namespace AF.C17
+open AF.Msg
+
+/-! ## an array message times a scalar message (known finding, modelled as the code behaves) -/
+
+/-- PARTIAL: the product / quotient of a two-element message with a scalar message is the element-wise one only
+under the explicit guard that the scalar operand's two natural parameters coincide -/
+theorem mixed_shape_broadcast_partial {K : Type} [Field K] (fn : Fn K) (a : Base K) (eb : K × K) (lnB : K) (j : Nat)
+    (hguard : eb.1 = eb.2) : a.mulB fn eb j = a.mul fn eb ∧ a.divB fn eb lnB j = a.div fn eb lnB := by
+  have e : (if j = 0 then eb.1 else eb.2) = eb.1 := by split <;> simp [hguard]
+  have e' : (eb.1, eb.1) = eb := by ext <;> simp [hguard]
+  simp only [Base.mulB, Base.divB, e, e', and_self]
+
+/-- the guard is necessary: `GammaMessage([1, 2], [1, 0.5]) * GammaMessage(2, 3)` - the second element of the result has
+shape `-1` (an invalid message) where the element-wise product has shape `3` -/
+theorem mixed_shape_broadcast_refuted (fn : Fn ℚ) :
+    let a1 : Base ℚ := { fam := .gamma, p1 := 2, p2 := 1 / 2, logNorm := 0, id := 0, lower := 0, upper := 0 }
+    let eb : ℚ × ℚ := calcNatural .gamma 2 3
+    (a1.mulB fn eb 1).p1 = -1 ∧ (a1.mul fn eb).p1 = 3 := by
+  simp only [Base.mulB, Base.mul, Base.natural, calcNatural, fromNatural, invertNatural]
+  norm_num
+
+end AF.C17
+
+/-! # growth: quotients of densities, variance through stacks, projection of transformed messages -/
+
+namespace AF.C17
+open AF.Msg
+
+variable {K : Type} [Field K] [LinearOrder K] [IsStrictOrderedRing K]
+
+/-- the density of `a / b` is the quotient of the densities up to a constant factor -/
+theorem density_div_proportional {fn : Fn K} (hs : SqrtLaw fn) (sp : Sp K) (a b : M K) (hf : a.base.fam ≠ .fixed)
+    (hfam : ∀ x, toCanonical fn sp b.base.fam x = toCanonical fn sp a.base.fam x)
+    (hd : InDomain a.base.fam (a.natural.1 - b.natural.1, a.natural.2 - b.natural.2)) :
+    ∃ c : K, ∀ x : K,
+      (M.div fn a b).base.logpdfRaw fn sp x = a.base.logpdfRaw fn sp x - b.base.logpdfRaw fn sp x + c := by
+  have hnat := div_natural hs a b hf hd
+  have hfam' : (M.div fn a b).base.fam = a.base.fam := congrArg (·.1) (arith_keeps_identity fn a b 0 0).2.1.1
+  refine ⟨logPartitionGB fn sp a.base.fam a.natural - logPartitionGB fn sp b.base.fam b.natural
+      - logPartitionGB fn sp a.base.fam (a.natural.1 - b.natural.1, a.natural.2 - b.natural.2) + logBase fn b.base.fam, ?_⟩
+  intro x
+  have hn' : (M.div fn a b).base.natural = (a.natural.1 - b.natural.1, a.natural.2 - b.natural.2) := hnat
+  rw [logpdfRaw_eq, logpdfRaw_eq, logpdfRaw_eq, hfam', hn', hfam x]
+  simp only [M.natural]
+  ring
+
+/-- the first-order variance through stacked transforms: the stack `trs ++ ts` continues from where `trs` ended
+(any depths; generalises `varianceChain_append`) -/
+theorem varianceChain_append_stack (fn : Fn K) (trs ts : List (Tr K)) (mv : K × K) :
+    varianceChain fn (trs ++ ts) mv = varianceChain fn ts (varianceChain fn trs mv) := by
+  induction trs generalizing mv with
+  | nil => rfl
+  | cons t rest ih =>
+    obtain ⟨m, v⟩ := mv
+    simp only [List.cons_append, varianceChain]
+    exact ih _
+
+/-- projection of a transformed message (repaired behaviour): the samples are mapped to the space of the base
+message, the base message is fitted there, transforms and id are kept; so - when the inversion has converged - the
+BASE message's expected sufficient statistics are the weighted means of `t(T x)` -/
+theorem transformed_project_moment_matching {fn : Fn K} (hs : SqrtLaw fn) (sp : Sp K) (t : TMsg K) (xs ws : List K)
+    (ln : K) (id : Nat) (hlen : xs.length = ws.length) (hn : xs ≠ []) (hw : sumL ws ≠ 0)
+    (hc : Converged fn sp t.base.fam
+      (sumL (List.zipWith (fun s w => s.1 * w) ((xs.map (transformChain fn t.trs)).map (toCanonical fn sp t.base.fam)) ws) / sumL ws)
+      (sumL (List.zipWith (fun s w => s.2 * w) ((xs.map (transformChain fn t.trs)).map (toCanonical fn sp t.base.fam)) ws) / sumL ws)) :
+    (∀ lws, (M.projectX fn sp (.transformed t) xs lws id).trs = t.trs ∧
+      (M.projectX fn sp (.transformed t) xs lws id).base =
+        projectX fn sp t.base.fam (xs.map (transformChain fn t.trs)) lws id) ∧
+    (projectWX fn sp t.base.fam (xs.map (transformChain fn t.trs)) ws ln id).expectedStats fn sp =
+      (sumL (List.zipWith (fun s w => s.1 * w) ((xs.map (transformChain fn t.trs)).map (toCanonical fn sp t.base.fam)) ws) / sumL ws,
+       sumL (List.zipWith (fun s w => s.2 * w) ((xs.map (transformChain fn t.trs)).map (toCanonical fn sp t.base.fam)) ws) / sumL ws) := by
+  refine ⟨fun lws => ⟨rfl, rfl⟩, ?_⟩
+  exact projectX_moment_matching hs sp t.base.fam _ ws ln id (by simpa using hlen) (by simpa using hn) hw hc
 
 end AF.C17
